@@ -2,7 +2,7 @@
 #ifndef VERIF_LEN_PART1_H
 #define VERIF_LEN_PART1_H
 #include "models/len.h"
-unsigned short g_wch; int g_src_wpos;
+unsigned short g_wch; int g_src_wpos; QString g_val; int g_val_kind, g_val_src;
 /* std::optional<FormatSpec>: completed in contracts/len_common.h once FormatSpec is known */
 typedef struct std_optional_FormattedToken_FormatSpec std_optional_FormattedToken_FormatSpec;
 typedef std_optional_FormattedToken_FormatSpec std_optional_FormatSpec;
